@@ -7,7 +7,7 @@ MANIFEST = dict(
     category="proof",
     text="Contracts on the real OPNMIDIplay::realTime_Controller, PatchChange, PitchBend (both), BankChangeLSB/MSB/BankChange, ChannelAfterTouch, NoteOff, NoteAfterTouch and the argument-handling range of realTime_NoteOn (extracted on every run), with NO precondition on the uint8/uint16 arguments: every index into the channel table is inside the table, callees receive a valid channel index, and the table invariant (volume, expression, brightness, program of every channel <= 127 - what touchNote and the instrument lookup require) is preserved; by induction over call histories. OPN2::noteOn/touchNote safety: C02/C11; SysEx: C19.",
     design_ref="DESIGN.md C03",
-    level_note="Scope: argument validation and table indexing only. realTime_NoteAfterTouch is covered with the list lookup as an assumed contract. realTime_NoteOn: its argument-handling range (channel fold, key clamp, note-off first; shared with C12) is covered, its allocation part is not, the C API wrappers, containers, emulator cores, the sequencer, audio generation. Callees (noteUpdateAll, updatePortamento, setRPN, noteOff, killSustainingNotes, markSostenutoNotes, MIDIchannel::resetAllControllers121) are assumed contracts that require a valid channel index and are assumed not to modify the four range-constrained fields. Table size fixed to 16 channels.",
+    level_note="Scope: argument validation and table indexing only. realTime_NoteAfterTouch is covered with the list lookup as an assumed contract. realTime_NoteOn: its argument-handling range (channel fold, key clamp, note-off first; shared with C12) is covered, its allocation part is not, the C API wrappers, containers, emulator cores, the sequencer, audio generation. updatePortamento, setRPN, MIDIchannel::resetAllControllers121/updateBendSensitivity are real extracted bodies proved against the contracts used at their call sites. Remaining callees (noteUpdateAll, noteOff, killSustainingNotes, markSostenutoNotes, find_activenote) are assumed contracts that require a valid channel index and are assumed not to modify the four range-constrained fields. Table size fixed to 16 channels.",
     technique="CBMC code contracts (DFCC) on mechanically extracted C++ member functions; inductive table invariant")
 TRUSTED = ["extraction rules of vlib/cxx2c.py", "harness/env_play.h", "assumed callee contracts listed in contracts/rt_contracts.h"]
 ASSUMPTIONS = ["channel table has 16 entries (one MIDI port)"]
@@ -28,7 +28,13 @@ FUNCS = [
 
 
 def _extract(wd):
-    specs = [dict(file=F, name="isXgPercChannel", cls=None, static=True)]
+    H = "src/opnmidi_midiplay.hpp"
+    specs = [dict(file=F, name="isXgPercChannel", cls=None, static=True),
+             dict(file=H, kind="inline_method", **{"class": "MIDIchannel"}, name="updateBendSensitivity"),
+             dict(file=H, kind="inline_method", **{"class": "MIDIchannel"}, name="resetAllControllers121", static=False, siblings=["updateBendSensitivity"]),
+             dict(file=F, name="OPNMIDIplay::updatePortamento", cls="OPNMIDIplay", must=["R10"]),
+             dict(file=F, name="OPNMIDIplay::setRPN", cls="OPNMIDIplay", must=["R10", "R2"],
+                  post=[(r"g_play\.m_midiChannels\[midCh\]\.updateBendSensitivity\(\)", "MIDIchannel_updateBendSensitivity(&g_play.m_midiChannels[midCh])")])]
     for n, kw in FUNCS:
         d = dict(file=F, name="OPNMIDIplay::" + n, cls="OPNMIDIplay"); d.update(kw); specs.append(d)
     return extract_play.emit(wd, specs)
@@ -47,6 +53,13 @@ def groups(tier):
             continue
         gs.append(Group("rt_" + c, "harness/rt_h.c", "h_" + c, enforce=c, replace=REPL, extract=_extract, object_bits=9,
                         unwindset="spec_inv_ranges.0:17,realTime_NoteAfterTouch.0:130,spec_chan_same_but_aftertouch.0:130,spec_MIDIchannel_eq.0:130", required=[r"postcondition", r"assigns"], funcs=["OPNMIDIplay::" + n], timeout=600))
+    gs.append(Group("rt_updatePortamento", "harness/rt_h.c", "h_updatePortamento", enforce="updatePortamento", replace=["pow"], extract=_extract, object_bits=9,
+                    unwindset="spec_inv_ranges.0:17", required=[r"postcondition"], funcs=["OPNMIDIplay::updatePortamento"], timeout=600))
+    gs.append(Group("rt_setRPN", "harness/rt_h.c", "h_setRPN", enforce="setRPN", replace=["exp"], extract=_extract, object_bits=9,
+                    unwindset="spec_inv_ranges.0:17", required=[r"postcondition"], funcs=["OPNMIDIplay::setRPN", "MIDIchannel::updateBendSensitivity"], timeout=600,
+                    flags=["--float-overflow-check", "--nan-check", "--conversion-check"]))
+    gs.append(Group("rt_resetAllControllers121", "harness/rt_h.c", "h_resetAllControllers121", enforce="MIDIchannel_resetAllControllers121", extract=_extract, object_bits=9,
+                    unwindset="memset.0:130", required=[r"postcondition", r"assigns"], funcs=["MIDIchannel::resetAllControllers121", "MIDIchannel::updateBendSensitivity"], timeout=600))
     from vlib.props import C12
     gs.append([g for g in C12.groups(tier) if g.name == "noteon_args_contract"][0])   # argument handling of realTime_NoteOn (shared with C12)
     return gs
